@@ -234,6 +234,10 @@ func (ex *Ex) hardcoded(fr *Frame, st *State, ins ssa.Instruction, callee *ssa.F
 			st.ghost["$dom"] = SV{T: Sub(fr.Lvl, targ(0)), Ty: tInt}
 		}
 		res, _ := ex.freshResults("Caller", callee.Signature)
+		if fr.Lvl != nil && len(res.Tuple) == 4 {
+			// the file name is a function of the denoted frame (callerFile in the spec language)
+			res.Tuple[1] = Val{T: App("f$callerFile", SString, Sub(fr.Lvl, targ(0)))}
+		}
 		k(st, res)
 		return true
 	case "fmt.Sprintf":
